@@ -21,7 +21,7 @@ from typing import Any, Callable, Iterable
 
 from kv import canon, coqio as cq, framework as fw
 
-RULE = ('cases = (handler declarations through the real decorators x cause/object state); bounded-exhaustive over the criteria '
+RULE = ('cases = (handler declarations through the real decorators x cause/object state); evaluations = model cases evaluated in Coq + (declaration, state) pairs judged by the monitor; bounded-exhaustive over the criteria '
         'alphabet of DESIGN §8 C15 (stratified in quick) plus random larger registries; a (declaration, state) pair is '
         'non-trivial iff the declaration has >= 1 criterion and its verdict differs from the verdict of the criteria-free '
         'declaration of the same kind on the same state, or from its own verdict on another state of the sweep; distinct by '
@@ -985,6 +985,7 @@ def check_selected(ctx: fw.Ctx, ds: list[dict], s: dict, ids: list[str], exclude
                    verdicts: dict[str, set[bool]] | None = None) -> None:
     exp = spec_selected(ds, s, excluded)
     base = {d['kind']: None for d in ds}
+    ctx.cov['evaluations'] += len(ds)      # every (declaration, state) pair is one evaluation of the monitor (real verdict vs docs evaluator)
     for d in ds:
         rid = real_id(d)
         v = rid in ids
